@@ -12,12 +12,12 @@ from vp.props import c04
 PID = 'C17'
 LEVEL = 'exploration'
 RULE = ("seeded circuits (hierarchy 0-1, several nodes per type, edges) x parameter maps over node constants (one or several nodes "
-        "and variables per key) and edge weights x grids (equal-length or permuted, 2-6 rows) x optional white-noise extrinsic input "
+        "and variables per key) and edge weights x grids (equal-length or permuted, 2-6 rows; as dict or as pandas DataFrame with default, shuffled, offset or sorted integer index) x optional white-noise extrinsic input "
         "x vectorize on/off; every column of the DataFrame returned by grid_search is compared with the reference trajectory of "
         "the circuit parametrised with the values that the RETURNED parameter table maps to that column's label; uncoupledness "
         "monitor: a second sweep with one row changed must leave all other columns bit-identical; non-trivial = >= 2 rows and "
         ">= 2 parameters; distinct = distinct (spec, grid) hash")
-DECIDING = ['columns_compared', 'rows_in_grids', 'edge_param_keys', 'node_param_keys', 'multi_target_keys', 'permuted_grids',
+DECIDING = ['columns_compared', 'rows_in_grids', 'dataframe_grids_nondefault_index', 'edge_param_keys', 'node_param_keys', 'multi_target_keys', 'permuted_grids',
             'input_sweeps', 'uncoupled_checks', 'vectorized_sweeps']
 ASSUMPTIONS = ['the returned parameter table (index = circuit labels) is the authority for which values belong to which column']
 CASE_TIMEOUT = 300
@@ -122,10 +122,35 @@ def run_case(case, ctx):
     res['features'] = feats + ['vec' if vec else 'novec', 'permute' if permute else 'linear']
     res['nontrivial'] = len(grid) >= 1 and max(len(v) for v in grid.values()) >= 2
 
+    # the grid may also be given as a pandas DataFrame (documented), whose integer index need not be 0..N-1 in order
+    frame = None if permute else rnd.choice([None, None, 'default', 'shuffled', 'offset', 'sorted'])
+    if frame:
+        mech['dataframe_grids'] = 1
+        if frame != 'default':
+            mech['dataframe_grids_nondefault_index'] = 1
+    res['features'].append(f'grid_{frame or "dict"}')
+    frame_seed = rnd.randrange(1 << 30)
+
+    def as_grid(g):
+        if not frame:
+            return copy.deepcopy(g)
+        import pandas as pd
+        d = pd.DataFrame({k: [float(x) for x in v] for k, v in g.items()})
+        r2 = random.Random(frame_seed)
+        if frame == 'shuffled':
+            idx = list(d.index)
+            r2.shuffle(idx)
+            d = d.loc[idx]
+        elif frame == 'offset':
+            d.index = [i + 3 for i in d.index]
+        elif frame == 'sorted':
+            d = d.sort_values(by=list(d.columns)[0], ascending=False)
+        return d
+
     def sweep(g):
         from pyrates import grid_search
         tmpl, _ = build.build_python(base)
-        return grid_search(circuit_template=tmpl, param_grid=copy.deepcopy(g), param_map=copy.deepcopy(param_map), step_size=dt,
+        return grid_search(circuit_template=tmpl, param_grid=as_grid(g), param_map=copy.deepcopy(param_map), step_size=dt,
                            simulation_time=steps * dt, outputs=dict(outputs),
                            inputs={k: v.copy() for k, v in inputs.items()} if inputs else None, permute_grid=permute,
                            solver='euler', vectorize=vec, verbose=False, clear=True, float_precision='float64')
@@ -195,7 +220,11 @@ def run_case(case, ctx):
             k = rnd.choice(list(g2))
             g2[k][0] = round(g2[k][0] * 1.37 + 0.11, 4)
             df2, table2 = sweep(g2)
-            lab0 = [l for l in table.index][0]
+            changed = [l for l in table.index if any(float(table[kk][l]) != float(table2[kk][l]) for kk in grid)]
+            if len(changed) != 1 or list(table.index) != list(table2.index):
+                raise observe.Mismatch(f"second sweep with one grid row changed: parameter tables differ in circuits {changed} "
+                                       f"(labels {list(table.index)} / {list(table2.index)})")
+            lab0 = changed[0]
             for c in cols:
                 ct = c if isinstance(c, tuple) else (c,)
                 if lab0 in ct:
